@@ -74,10 +74,48 @@ fn apply_conv(p: &mut Packet, c: &Value) {
             *p = r.message;
         }
         "set_content_format" => p.set_content_format(*ALL_CFS.iter().find(|m| cf_name(**m) == name).unwrap_or_else(|| tool_error("content format name"))),
+        "t_set_code" | "t_add_option" | "t_set_payload" | "t_payload_with_len" | "t_truncate" | "t_mutate_options" => apply_trait(p, c),
         "set_code" => p.header.code = (a["v"].as_u64().unwrap() as u8).into(),
         "add_option" => p.add_option(CoapOption::from(a["num"].as_u64().unwrap() as u16), vbytes(&a["v"])),
         "clear_option" => p.clear_option(CoapOption::from(a["num"].as_u64().unwrap() as u16)),
         other => tool_error(&format!("unknown call {}", other)),
+    }
+}
+
+/// the generic coap-message writer calls, through trait version 0.2 or 0.3 ("api")
+fn apply_trait(p: &mut Packet, c: &Value) {
+    let a = &c["a"];
+    let v3 = a["api"].as_u64() == Some(3);
+    let flip = |_n: CoapOption, v: &mut [u8]| {
+        if let Some(b) = v.first_mut() {
+            *b ^= 1;
+        }
+    };
+    match c["f"].as_str().unwrap() {
+        "t_set_code" => {
+            let code: MessageClass = (a["v"].as_u64().unwrap() as u8).into();
+            if v3 { coap_message_0_3::MinimalWritableMessage::set_code(p, code) } else { coap_message::MinimalWritableMessage::set_code(p, code) }
+        }
+        "t_add_option" => {
+            let n = CoapOption::from(a["num"].as_u64().unwrap() as u16);
+            let v = vbytes(&a["v"]);
+            if v3 { coap_message_0_3::MinimalWritableMessage::add_option(p, n, &v).unwrap() } else { coap_message::MinimalWritableMessage::add_option(p, n, &v) }
+        }
+        "t_set_payload" => {
+            let v = vbytes(&a["v"]);
+            if v3 { coap_message_0_3::MinimalWritableMessage::set_payload(p, &v).unwrap() } else { coap_message::MinimalWritableMessage::set_payload(p, &v) }
+        }
+        "t_payload_with_len" => {
+            let n = a["n"].as_u64().unwrap() as usize;
+            if v3 { let _ = coap_message_0_3::MutableWritableMessage::payload_mut_with_len(p, n).unwrap().len(); } else { let _ = coap_message::MutableWritableMessage::payload_mut_with_len(p, n).len(); }
+        }
+        "t_truncate" => {
+            let n = a["n"].as_u64().unwrap() as usize;
+            if v3 { coap_message_0_3::MutableWritableMessage::truncate(p, n).unwrap() } else { coap_message::MutableWritableMessage::truncate(p, n) }
+        }
+        _ => {
+            if v3 { coap_message_0_3::MutableWritableMessage::mutate_options(p, flip) } else { coap_message::MutableWritableMessage::mutate_options(p, flip) }
+        }
     }
 }
 
